@@ -3,7 +3,6 @@ replay files, known findings, evidence."""
 import collections
 import concurrent.futures
 import contextlib
-import faulthandler
 import hashlib
 import io
 import json
@@ -13,7 +12,6 @@ import random
 import subprocess
 import sys
 import time
-import traceback
 import warnings
 
 from .rng import H, Tape
